@@ -36,10 +36,18 @@ def resolve_path(filename: Path) -> str:
     return str(full_filename)
 
 
+def _is_remote(url_path: str) -> bool:
+    """Check if 'url_path' refers to a remote file (e.g. 'https://...', 's3://...')."""
+    protocol, separator, _ = url_path.partition("://")
+    return bool(separator) and protocol not in ("file", "local")
+
+
 def prepare_cache_path(url_path: str) -> tuple[str, dict]:
     """Prepare and return the cache path and fsspec's configuration extra."""
     extras = {}
-    if global_options.cache_enabled:
+    # Only remote files are cached. The cached copy of a local file would never be
+    # refreshed and would hide any later modification of this file.
+    if global_options.cache_enabled and _is_remote(url_path):
         url_path = f"simplecache::{url_path}"
 
         if global_options.cache_folder:
